@@ -162,6 +162,26 @@ def const_operand_programs(W):
     return out
 
 
+def extension_programs():
+    """A value-preserving inner form (whole-value slice, as_unsigned/as_signed, ~, -, abs, constant shift) of a narrow operand
+    used where it has to be EXTENDED: the inner form's own signedness decides between zero and sign extension."""
+    out = []
+    for sa in ((2, True), (3, True), (3, False)):
+        a = sig("a", sa)
+        inners = [["slice", a, None, None, None], ["slice", a, 0, sa[0], None], ["as_unsigned", a], ["as_signed", a], ["inv", a], ["neg", a],
+                  ["abs", a], ["shift_left", a, 0], ["shift_right", a, 0], ["rotate_left", a, 0], ["cat", [a]], ["replicate", a, 1],
+                  ["mux", ["const", 1, 1, False], a, a], ["bit_select", a, ["const", 0, None, False], sa[0]]]
+        for inner in inners:
+            for sb in ((5, False), (5, True)):
+                b = sig("b", sb)
+                for k in ("add", "sub", "mul", "and", "or", "xor", "lt", "ge", "eq"):
+                    out.append([k, inner, b])
+                out.append(["mux", sig("c", (1, False)), inner, b])
+                out.append(["cat", [inner, b]])
+                out.append(["array", [inner, b], sig("c", (1, False))])
+    return out
+
+
 def depth1(W, amount_W):
     """Every operator over every combination of leaf shapes (signals), plus parametrised forms."""
     shapes = leaf_shapes(W)
@@ -252,6 +272,7 @@ def depth2(shapes=((2, False), (2, True)), full=False):
     for sa in shapes:
         inner.append(["bit_select", sig("p", sa), sig("q", (2, False)), 2])
         inner.append(["slice", sig("p", sa), 1, None, None])
+        inner.append(["slice", sig("p", sa), None, None, None])
         inner.append(["cat", [sig("p", sa), sig("q", (1, True))]])
         inner.append(["mux", sig("q", (1, False)), sig("p", sa), ["const", -1, None, True]])
         if full:
